@@ -33,6 +33,17 @@ type Contract struct {
 	IterEns  map[int][]Clause
 	last     *Clause
 	Generated bool
+	IsIface  bool
+	Ghosts   []SiteClause
+	Asserts  []SiteClause
+}
+
+// SiteClause: a clause attached to the k-th call (in source order) of a callee inside the function.
+type SiteClause struct {
+	Name   string // ghost name
+	Callee string
+	K      int
+	Clause Clause
 }
 
 type Clause struct {
@@ -74,6 +85,7 @@ type Specs struct {
 	generated []string
 	unorderedOK map[string]string
 	structInv map[string][]Clause
+	pureMethod map[string]bool
 }
 
 type Lemma struct {
@@ -115,7 +127,7 @@ func (s *Specs) ifaceContract(it types.Type, method string) *Contract {
 func loadSpecs(w *World, trustedDir string) *Specs {
 	s := &Specs{contracts: map[string]*Contract{}, ifaces: map[string]*Contract{}, specFns: map[string]*SpecFn{}, pure: map[string]bool{},
 		mutators: map[string]bool{}, noInline: map[string]bool{}, nonnilField: map[string]bool{}, nonnilElem: map[string]bool{},
-		nonnilMapVal: map[string]bool{}, nonnilResult: map[string]bool{}, nonnilIface: map[string]bool{}, unorderedOK: map[string]string{}, structInv: map[string][]Clause{}, w: w, pkgByName: map[string]*types.Package{}, typeInv: map[string][]Clause{}}
+		nonnilMapVal: map[string]bool{}, nonnilResult: map[string]bool{}, nonnilIface: map[string]bool{}, unorderedOK: map[string]string{}, structInv: map[string][]Clause{}, pureMethod: map[string]bool{}, w: w, pkgByName: map[string]*types.Package{}, typeInv: map[string][]Clause{}}
 	for _, p := range w.prog.AllPackages() {
 		name := p.Pkg.Name()
 		if old, ok := s.pkgByName[name]; ok {
@@ -212,6 +224,7 @@ func (s *Specs) parseFile(path string, trusted bool) {
 			key, params, results := parseHeader(rest)
 			cur = &Contract{Key: key, Params: params, Results: results, Trusted: word == "trusted" || trusted, LoopInv: map[int][]Clause{}, LoopDec: map[int]string{}, IterEns: map[int][]Clause{}, File: path, Line: ln}
 			if word == "iface" {
+				cur.IsIface = true
 				s.ifaces[key] = cur
 			} else {
 				if _, dup := s.contracts[key]; dup {
@@ -263,14 +276,41 @@ func (s *Specs) parseFile(path string, trusted bool) {
 					}
 				}
 			}
-		case "ghost":
+		case "ghost", "assert":
+			// ghost <name> after <callee>#<k> : <expr>      assert before <callee>#<k> : [tags] <expr>
 			if cur != nil {
-				cur.Ghost = append(cur.Ghost, rest)
+				if i := strings.Index(rest, " : "); i > 0 {
+					head := strings.Fields(rest[:i])
+					t, tags, nm := splitTags(strings.TrimSpace(rest[i+3:]))
+					sc := SiteClause{Clause: Clause{Text: t, Tags: tags, Line: ln, Name: nm}}
+					site := ""
+					if word == "ghost" && len(head) == 3 {
+						sc.Name, site = head[0], head[2]
+					} else if word == "assert" && len(head) == 2 {
+						site = head[1]
+					}
+					if j := strings.LastIndex(site, "#"); j > 0 {
+						sc.Callee = site[:j]
+						sc.K, _ = strconv.Atoi(site[j+1:])
+						if word == "ghost" {
+							cur.Ghosts = append(cur.Ghosts, sc)
+							cur.last = &cur.Ghosts[len(cur.Ghosts)-1].Clause
+						} else {
+							cur.Asserts = append(cur.Asserts, sc)
+							cur.last = &cur.Asserts[len(cur.Asserts)-1].Clause
+						}
+					} else {
+						s.errs = append(s.errs, fmt.Sprintf("%s:%d bad site in %s", path, ln, word))
+					}
+				}
 			}
 		case "spec":
 			s.parseSpecFn(rest, path, ln)
 		case "pure":
 			s.pure[rest] = true
+		case "pure-method":
+			s.pureMethod[rest] = true
+			s.w.declaredPure[rest] = true
 		case "mutator":
 			s.mutators[rest] = true
 		case "noinline":
